@@ -952,6 +952,109 @@ fn gen_kf_reorder_oom(w: &mut dyn Write) {
     writeln!(w, "show f1").unwrap();
 }
 
+/// C07: several application threads run operation scripts concurrently on one manager
+fn gen_c07(cfg: &GenCfg, rng: &mut Rng, w: &mut dyn Write, kind: &str) {
+    let z = zbdd(kind);
+    let quants = ["forall", "exists", "unique"];
+    let cases = if cfg.thorough { 300 } else { 40 } * cfg.scale;
+    for c in 0..cases {
+        let stress = c % 8 == 7;
+        let n = if stress { if z { 9 } else { rng.range(12, 14) as u32 } } else { rng.range(4, if z { 7 } else { 8 }) as u32 };
+        let workers = *rng.pick(&[2u32, 4, 8, 16]);
+        let split = *rng.pick(&["0", "1", "auto", "64"]);
+        writeln!(w, "case c07-{}-n{}-w{}-s{}", c, n, workers, split).unwrap();
+        writeln!(w, "mgr nodes=1048576 cache={} threads={} split={} vars={}", rng.pick(&[16usize, 4096]), workers, split, n).unwrap();
+        let pool = rand_pool(w, rng, n, if stress { 150 } else { 40 });
+        // variable sets / cubes shared by all threads
+        let mut sets = Vec::new();
+        for s in 0..6 {
+            let mut l = format!("cube vs{}", s);
+            let mut l2 = format!("cube cb{}", s);
+            for v in 0..n {
+                if rng.chance(1, 3) {
+                    l.push_str(&format!(" +{}", v));
+                }
+                match rng.below(4) {
+                    0 => l2.push_str(&format!(" +{}", v)),
+                    1 => l2.push_str(&format!(" -{}", v)),
+                    _ => {}
+                }
+            }
+            writeln!(w, "{}", l).unwrap();
+            writeln!(w, "{}", l2).unwrap();
+            sets.push(s);
+        }
+        let rounds = if stress { 6 } else { 4 };
+        for round in 0..rounds {
+            let nt = rng.range(2, 4) as usize;
+            let per = if stress { 25 } else { rng.range(4, 10) as usize };
+            let mut own: Vec<Vec<String>> = vec![Vec::new(); nt];
+            let mut items: Vec<String> = Vec::new();
+            let mut seqs: Vec<Vec<String>> = vec![Vec::new(); nt];
+            for t in 0..nt {
+                for i in 0..per {
+                    let name = format!("t{}_r{}_{}", t, round, i);
+                    let pickh = |rng: &mut Rng, own: &Vec<String>| -> String {
+                        if !own.is_empty() && rng.chance(1, 2) { rng.pick(own).clone() } else { rng.pick(&pool).clone() }
+                    };
+                    let k = rng.below(20);
+                    let l = if k < 9 {
+                        format!("op {} {} {} {}", name, rng.pick(&BIN_OPS), pickh(rng, &own[t]), pickh(rng, &own[t]))
+                    } else if k < 11 {
+                        format!("op {} ite {} {} {}", name, pickh(rng, &own[t]), pickh(rng, &own[t]), pickh(rng, &own[t]))
+                    } else if k < 12 {
+                        format!("op {} not {}", name, pickh(rng, &own[t]))
+                    } else if k < 14 && !z {
+                        format!("quant {} {} {} vs{}", name, rng.pick(&quants), pickh(rng, &own[t]), rng.pick(&sets))
+                    } else if k < 15 && !z {
+                        format!("applyq {} {} {} {} {} vs{}", name, rng.pick(&quants), rng.pick(&BIN_OPS), pickh(rng, &own[t]), pickh(rng, &own[t]), rng.pick(&sets))
+                    } else if k < 16 {
+                        format!("restrict {} {} cb{}", name, pickh(rng, &own[t]), rng.pick(&sets))
+                    } else if k < 17 {
+                        format!("clone {} {}", name, pickh(rng, &own[t]))
+                    } else if k < 18 && !own[t].is_empty() {
+                        let i = rng.below(own[t].len() as u64) as usize;
+                        let d = own[t].swap_remove(i);
+                        seqs[t].push(format!("t{}:drop {}", t, d));
+                        continue;
+                    } else if k < 19 {
+                        seqs[t].push(format!("t{}:pargc", t));
+                        continue;
+                    } else {
+                        format!("op {} {} {} {}", name, rng.pick(&BIN_OPS), pickh(rng, &own[t]), pickh(rng, &own[t]))
+                    };
+                    own[t].push(name);
+                    seqs[t].push(format!("t{}:{}", t, l));
+                }
+            }
+            // interleave the per-thread sequences in the line (their relative order is kept)
+            let mut idx = vec![0usize; nt];
+            loop {
+                let live: Vec<usize> = (0..nt).filter(|&t| idx[t] < seqs[t].len()).collect();
+                if live.is_empty() {
+                    break;
+                }
+                let t = *rng.pick(&live);
+                items.push(seqs[t][idx[t]].clone());
+                idx[t] += 1;
+            }
+            writeln!(w, "par {}", items.join(" ; ")).unwrap();
+            // afterwards the diagram is well-formed with exact reference counts
+            writeln!(w, "rcchk").unwrap();
+            writeln!(w, "audit").unwrap();
+            if rng.chance(1, 2) {
+                writeln!(w, "gc").unwrap();
+                if !stress {
+                    writeln!(w, "dump").unwrap();
+                }
+            }
+        }
+        writeln!(w, "dropall").unwrap();
+        writeln!(w, "gc").unwrap();
+        writeln!(w, "dump").unwrap();
+    }
+}
+
 fn generate(cfg: &GenCfg, rng: &mut Rng, w: &mut dyn Write) {
     let kind = cfg.extra.get("kind").map(|s| s.as_str()).unwrap_or("bdd").to_string();
     let suite = cfg.extra.get("suite").map(|s| s.as_str()).unwrap_or("c02").to_string();
@@ -959,6 +1062,7 @@ fn generate(cfg: &GenCfg, rng: &mut Rng, w: &mut dyn Write) {
         "c02" => gen_c02(cfg, rng, w, &kind),
         "c01" | "c03" | "c05" => gen_hist(cfg, rng, w, &kind, &suite),
         "c06" => gen_c06(cfg, rng, w, &kind),
+        "c07" => gen_c07(cfg, rng, w, &kind),
         "c08" => gen_c08(cfg, rng, w, &kind),
         "c14" => gen_c14(cfg, rng, w, &kind),
         "kf-zbdd-reorder" => gen_kf_zbdd_reorder(w),
